@@ -123,6 +123,23 @@ def install_natives(m):
     m.natives["@__cxa_begin_catch"] = lambda mach, p: p
     m.natives["@__cxa_end_catch"] = lambda mach: None
     m.natives["@__gxx_personality_v0"] = lambda mach, *a: 0
+    # function-local statics (Itanium ABI guard variables), one thread: the first byte of the guard says "initialised"
+    I8 = llsym.T("int", n=8)
+
+    def guard_acquire(mach, g):
+        b = mach.load(g, I8)
+        if not isinstance(b, int):
+            raise EngineLimit("guard variable is symbolic")
+        return 0 if b & 1 else 1
+
+    def guard_release(mach, g):
+        mach.store(g, I8, 1)
+        return None
+
+    m.natives["@__cxa_guard_acquire"] = guard_acquire
+    m.natives["@__cxa_guard_release"] = guard_release
+    m.natives["@__cxa_guard_abort"] = lambda mach, g: None
+    m.natives["@__cxa_atexit"] = lambda mach, *a: 0       # destructors of statics at exit are not run
 
 
 def c03_family(tier, sd=0):
